@@ -198,3 +198,49 @@ func simplifyOr(a, b *Term) *Term {
 	}
 	return buildSegs(m, a.W)
 }
+
+// eqBySegments splits an equality along the segments of a concat-shaped side:
+// x == (s1 ++ s2 ++ ...)  becomes  /\ extract_i(x) == s_i, where segments that
+// are literally the corresponding extract of x disappear.
+func eqBySegments(a, b *Term) *Term {
+	c, x := a, b
+	if c.Op != OpConcat {
+		c, x = b, a
+	}
+	ss := segsOf(c, 0)
+	if len(ss) < 2 {
+		return nil
+	}
+	r := True
+	hi := c.W - 1
+	for _, sg := range ss {
+		lo := hi - sg.w + 1
+		xe := Extract(x, hi, lo)
+		st := sg.t
+		if st == nil {
+			st = BV(sg.w, 0)
+		}
+		if xe != st {
+			if sg.w > 8 && (xe.Op == OpConcat || st.Op == OpConcat) {
+				// avoid unbounded recursion: plain equality node
+				if xe.id > st.id {
+					xe, st = st, xe
+				}
+				if xe.Op == OpConst && st.Op == OpConst {
+					if xe.V != st.V {
+						return False
+					}
+				} else {
+					r = And(r, TT.mk(OpEq, 0, 0, "", xe, st))
+				}
+			} else {
+				r = And(r, Eq(xe, st))
+			}
+			if r.IsFalse() {
+				return False
+			}
+		}
+		hi = lo - 1
+	}
+	return r
+}
